@@ -1200,6 +1200,19 @@ def ax_exp(a, r, lst):
         # growth anchors (G): exp(354) < 5.5e153, exp(177) < 7.4e76 - what bounds a power of an exp() result
         A(z3.Implies(a <= 354, r <= rv(5.5e153)), 0)
         A(z3.Implies(a <= 177, r <= rv(7.4e76)), 0)
+    if ENG.opts.get('underflow'):
+        # computed values (C08): monotone, but not strictly - two arguments an ulp apart, or both beyond the
+        # saturation / underflow threshold, give the same double
+        A(z3.Implies(a < 0, r <= 1))
+        A(z3.Implies(a > 0, r >= 1))
+        A(z3.Implies(a == 0, r == 1))
+        for (a2, r2) in lst:
+            if not related(a, a2):
+                continue
+            A(z3.Implies(a < a2, r <= r2))
+            A(z3.Implies(a > a2, r >= r2))
+            A(z3.Implies(a == a2, r == r2))
+        return
     A(z3.Implies(a < 0, r < 1))
     A(z3.Implies(a > 0, r > 1))
     A(z3.Implies(a == 0, r == 1))
@@ -1215,6 +1228,17 @@ def ax_cdf(a, r, lst):
     A = ENG.add_axiom
     _pos_axiom(a, r, UF_CDF)
     A(r < 1, 0) if not ENG.opts.get('underflow') else A(r <= 1, 0)
+    if ENG.opts.get('underflow'):
+        A(z3.Implies(a == 0, 2 * r == 1))
+        A(z3.Implies(a > 0, 2 * r >= 1))
+        A(z3.Implies(a < 0, 2 * r <= 1))
+        for (a2, r2) in lst:
+            if not related(a, a2):
+                continue
+            A(z3.Implies(a < a2, r <= r2))
+            A(z3.Implies(a > a2, r >= r2))
+            A(z3.Implies(a == a2, r == r2))
+        return
     A(z3.Implies(a == 0, 2 * r == 1))
     A(z3.Implies(a > 0, 2 * r > 1))
     A(z3.Implies(a < 0, 2 * r < 1))
